@@ -172,6 +172,18 @@ def rule_reg_lookup(db: ProgramDB) -> List[Instance]:
     cls_param = fn.positional_params[1]
     calls = [c for c in own_nodes(fn.node) if isinstance(c, ast.Call) and dotted(c.func) == "issubclass"]
     if not calls:
+        # alternative idiom: walking clazz.__subclasses__() - every class must be listed once (diamonds!)
+        helpers = [fn] + [db.resolve_name(fn.module, c.func.id) for c in own_nodes(fn.node)
+                          if isinstance(c, ast.Call) and isinstance(c.func, ast.Name)]
+        walkers = [h for h in helpers if isinstance(h, FuncInfo) and "__subclasses__" in unparse(h.node)]
+        if walkers:
+            dedup = any(("seen" in unparse(h.node) or "set(" in unparse(h.node) or "dict.fromkeys" in unparse(h.node))
+                        for h in walkers + [fn])
+            out.append(inst("REG-LOOKUP", HOLDS if dedup else VIOLATION, fn, "get_cache_keys_for_class_[subclass walk lists each class once]",
+                            "the subclass walk de-duplicates the classes it reaches" if dedup else
+                            "the stores are found by walking __subclasses__() without remembering visited classes: a class "
+                            "reachable along two inheritance paths (a diamond) is listed twice and its instances are yielded twice"))
+            return out
         raise AnalysisError("get_cache_keys_for_class_: no issubclass test found")
     for c in calls:
         ok = len(c.args) == 2 and unparse(c.args[1]) == cls_param and unparse(c.args[0]) != cls_param
@@ -271,4 +283,49 @@ def rule_reg_infer(db: ProgramDB) -> List[Instance]:
             if d.endswith(".__new__") or d in ("object.__new__", "copy.deepcopy", "deepcopy", "dataclasses.replace", "replace"):
                 out.append(inst("REG-INFER", VIOLATION, fn, f"{fn.short}[{d}]",
                                 f"`{unparse(c)[:60]}` creates an object bypassing the registering constructor", line=c.lineno))
+    return out
+
+
+def rule_reg_read_mode(db: ProgramDB) -> List[Instance]:
+    """The registry is written in one of two modes (indexed tree / flat store) chosen by index_class_cache(cls); a
+    variable must read it in the same mode, i.e. every Variable built for a @symbol class passes
+    _is_indexed_=index_class_cache(<that class>) (the dataclass default would select the other store)."""
+    out = []
+    var = db.cls("Variable")
+    writer = db.fn("predicate:instantiate_class_and_update_cache")
+    wmode = None
+    for c in own_calls(writer):
+        if call_attr(c) == "insert":
+            for k in c.keywords:
+                if k.arg == "index":
+                    wmode = k.value
+    if wmode is None:
+        raise AnalysisError("the registry writer does not pass index=")
+    wdefs = [d for d in local_defs(writer).get(wmode.id, [])] if isinstance(wmode, ast.Name) else [wmode]
+    wsrc = unparse(wdefs[0]) if wdefs and isinstance(wdefs[0], ast.AST) else unparse(wmode)
+    default = var.field("_is_indexed_")
+    n = 0
+    for fn in db.all_functions():
+        if fn.module != "predicate":
+            continue
+        for c in own_calls(fn):
+            t = resolve_call_target(db, fn, c)
+            if isinstance(t, ClassInfo) and t is var:
+                amap = bind_args(var.init_params(), c)
+                ty = amap.get("_type_")
+                if ty is None or not isinstance(ty, ast.Name):
+                    continue
+                if "_predicate_type_" in amap and isinstance(amap["_predicate_type_"], ast.Attribute):
+                    continue      # @predicate function variables: _type_ is a function, nothing is read from the registry
+                n += 1
+                mode = amap.get("_is_indexed_")
+                want = wsrc.replace(writer.positional_params[0], ty.id)
+                ok = mode is not None and unparse(mode) == want
+                out.append(inst("REG-READ-MODE", HOLDS if ok else VIOLATION, fn, f"{fn.short}[Variable(…{ty.id}…)]",
+                                f"reads the registry in the mode it is written in (`_is_indexed_={want}`)" if ok else
+                                f"`{unparse(c)[:70]}` does not pass `_is_indexed_={want}`: the variable reads the "
+                                f"{'default (' + unparse(default.default) + ')' if mode is None and default is not None else unparse(mode) if mode is not None else '?'} "
+                                f"store while instances are written to the other one, so it ranges over nothing", line=c.lineno))
+    if n == 0:
+        raise AnalysisError("no Variable construction for a @symbol class found in predicate.py")
     return out
